@@ -368,6 +368,81 @@ pub fn k9(dir: &str, thorough: bool, seed: u64) {
         };
         // archived sets
         let loaded = guarded(std::panic::AssertUnwindSafe(|| load_bdd_bundle(&opath, xg.graph.symbolic_context())));
+        // the same files through the MODEL of the tool (`Cli.analyse`, proved equal to the model's library entry points):
+        // the sets the tool archived, in order, and the trees it printed are the model's
+        {
+            out.case(&xg.graph_line(), &format!("graph ok points={} premises=ok", xg.num_points()), true);
+            for l in ctx_lines(&xg, &ctx) {
+                let imp = if l == "ctxclear" { "ctx cleared" } else { "ctx ok" };
+                out.case(&l, imp, false);
+            }
+            let clean = strip_ansi(&stdout);
+            let expected = match &loaded {
+                Ok(Ok(m)) => {
+                    let sets: Vec<String> = (0..m.len())
+                        .map(|j| m.get(&format!("formula-{j}")).map(|x| xg.bits(x)).unwrap_or_else(|| s("missing")))
+                        .collect();
+                    // the tool prints the preprocessed trees with the two verbose options; otherwise take the harness's own
+                    let printed: Vec<String> = clean.lines().filter_map(|l| l.strip_prefix("Modified version:     ")).map(|x| x.to_string()).collect();
+                    let trees_txt: Vec<String> = if opt == "with-progress" || opt == "exhaustive" { printed } else { trees.iter().map(|t| t.to_string()).collect() };
+                    format!("ok k={} trees={} {}", kmax, trees_txt.iter().map(|t| enc_name(t)).collect::<Vec<_>>().join(";"), sets.join(" "))
+                }
+                _ => format!("msg {}", err_kind(clean.lines().last().unwrap_or(""))),
+            };
+            out.count("cli_model");
+            out.case(&format!("cli {} {}", if use_ctx { 1 } else { 0 }, enc_chars(&ftext)), &expected, true);
+            // what the tool printed per formula (counts; in exhaustive mode also the listed states) against the model
+            if opt != "no-print" && matches!(&loaded, Ok(Ok(_))) {
+                let lines: Vec<&str> = clean.lines().collect();
+                let mut per_formula: Vec<String> = Vec::new();
+                for (ln, l) in lines.iter().enumerate() {
+                    if !l.starts_with("Formula: ") {
+                        continue;
+                    }
+                    let num = |x: Option<&&str>, suffix: &str| -> String {
+                        x.and_then(|t| t.strip_suffix(suffix)).map(|t| t.trim().to_string()).unwrap_or_else(|| s("?"))
+                    };
+                    let mut item = format!(
+                        "{}/{}/{}",
+                        num(lines.get(ln + 2), " results in total"),
+                        num(lines.get(ln + 3), " unique colors"),
+                        num(lines.get(ln + 4), " unique states")
+                    );
+                    if opt == "exhaustive" {
+                        let mut states: Vec<usize> = Vec::new();
+                        for sl in lines.iter().skip(ln + 6) {
+                            if *sl == "-----" {
+                                break;
+                            }
+                            let mut st = 0usize;
+                            let mut j = 0usize;
+                            for lit in sl.split(" & ") {
+                                let lit = lit.trim();
+                                if lit.is_empty() {
+                                    continue;
+                                }
+                                if !lit.starts_with('~') {
+                                    st |= 1 << j;
+                                }
+                                j += 1;
+                            }
+                            states.push(st);
+                        }
+                        states.sort();
+                        item.push(':');
+                        item.push_str(&states.iter().map(|x| x.to_string()).collect::<Vec<_>>().join("."));
+                    }
+                    per_formula.push(item);
+                }
+                let mode = if opt == "exhaustive" { "full" } else { "counts" };
+                out.count(&format!("cli_model_print_{mode}"));
+                out.case(
+                    &format!("cliprint {} {mode} {}", if use_ctx { 1 } else { 0 }, enc_chars(&ftext)),
+                    &format!("ok {}", per_formula.join(" ")),
+                    true,
+                );
+            }
+        }
         match loaded {
             Ok(Ok(m)) => {
                 for (j, r) in lib.iter().enumerate() {
@@ -471,9 +546,28 @@ pub fn k9(dir: &str, thorough: bool, seed: u64) {
         ("missing context archive", vec![&good_model, &ctx_f, "-e", "/nonexistent.zip"]),
         ("corrupted bdd entry", vec![&good_model, &s0_f, "-e", &corrupt]),
     ];
+    let xg_ok = Xg::new("okm", "a -> b\nb -| a\n", 0).unwrap();
+    out.case(&xg_ok.graph_line(), &format!("graph ok points={} premises=ok", xg_ok.num_points()), true);
+    out.case("ctxclear", "ctx cleared", false);
     for (what, args) in cases {
         let (stdout, stderr, code) = run_cli(&bin, &args);
         out.count("cli_error_path");
+        // the formula-related messages against the model of the tool: the same kind of message
+        let modelled: Option<(&str, bool)> = match what {
+            "invalid formula" => Some(("EF a &\n", false)),
+            "free variable" => Some(("AX {x}\n", false)),
+            "missing context label" => Some(("EF %missing%\n", true)),
+            "wild-card without context archive" => Some(("EF %missing%\n", false)),
+            _ => None,
+        };
+        if let Some((ftxt, ext)) = modelled {
+            let clean = strip_ansi(&stdout);
+            out.case(
+                &format!("cli {} {}", if ext { 1 } else { 0 }, enc_chars(ftxt)),
+                &format!("msg {}", err_kind(clean.lines().last().unwrap_or(""))),
+                true,
+            );
+        }
         out.oracle(
             !stderr.contains("panicked") && code == Some(0) && !stdout.trim().is_empty(),
             "C17",
